@@ -40,6 +40,7 @@ type VC struct {
 	obls     []*Obligation
 	nfresh   int
 	usesSets bool
+	quantDepth int
 	usesQ    bool
 	strLits  map[string]*Term
 	typeTags map[string]*Term
@@ -107,6 +108,9 @@ func sanitize(s string) string {
 
 // FreshConst declares a fresh constant of the given sort.
 func (vc *VC) FreshConst(prefix string, s Sort) *Term {
+	if vc.quantDepth > 0 {
+		panic(specErr{"a fresh constant (" + prefix + ") is needed under a quantifier: the quantified expression calls code that is not a pure term"})
+	}
 	n := vc.fresh(prefix)
 	vc.noteSort(s)
 	vc.lines = append(vc.lines, fmt.Sprintf("(declare-const %s %s)", n, s))
@@ -115,7 +119,7 @@ func (vc *VC) FreshConst(prefix string, s Sort) *Term {
 
 // Def names a term (define-fun) and returns the symbol.
 func (vc *VC) Def(prefix string, t *Term) *Term {
-	if t.IsLeaf() {
+	if t.IsLeaf() || vc.quantDepth > 0 {
 		return t
 	}
 	n := vc.fresh(prefix)
@@ -152,6 +156,9 @@ func (vc *VC) noteTerm(t *Term) {
 
 // Assume adds a guarded assumption.
 func (vc *VC) Assume(guard, fact *Term) {
+	if vc.quantDepth > 0 {
+		return // typing facts about terms under a quantifier are dropped
+	}
 	f := Implies(guard, fact)
 	if IsTrue(f) {
 		return
